@@ -89,10 +89,15 @@ class Build:
 def run(tier, seed):
     n = 40 if tier == "quick" else 500
     progs = common.gen_programs(n, seed, vars=3, functions=2.0, impure_functions=0.0)
-    return runner.run_relational(
+    nviol = runner.run_relational(
         "C16", progs, Build(tier, seed), tier, seed, "model_checking",
         rule="generated programs with pure value/text functions x explored path x evaluate_function after every "
              "operation (dense) and at one position twice (sparse); non-trivial: at least one evaluation succeeded; "
              "visit/turn entries of the functions themselves are masked on both sides",
         ex_kw=dict(depth=3 if tier == "quick" else 5, max_paths=10 if tier == "quick" else 50),
         assumptions=["purity of a function is a fact of the generator (it writes no global)"])
+    # evaluate_function against the executable model of the host interface (absolute oracle, Tier-S programs; the
+    # functions there may write globals: what they did stays, everything else is as before the call)
+    import hostmodel
+    nviol += hostmodel.check("C16", "eval", tier, seed)
+    return nviol
